@@ -8,6 +8,9 @@ claimed = {
  "C06": ("model_checking", "TLC explores BpCopyBufferBits completely (CCopy.tla: n<=80 x di x si, LE and BE variants, on provenance tags) and the big-endian staging of BpEndecodeBaseType (MC_Stage: widths 1..64 x offsets) and shows both variants produce the same wire; every BpCopyBufferBits call of the real -DBP_BIG_ENDIAN build, the U_full leaf space and an array-capacity sweep on big-endian-laid storage, and -O output under every --endian setting / preprocessor branch are recorded and decided by TLC against the CCopy machine and Wire.", "6 C06", "TLA+ CCopy/Stage spec model-checked by TLC + trace validation of the big-endian code paths"),
  "C14": ("model_checking", "The complete finite space {bool, byte, uint1..64, int1..64} x offset 0..7 x {scalar, alias, array element incl. batch path, aliased array, array of alias} x basis values is executed in the Python runtime, the C runtime (LE and -DBP_BIG_ENDIAN builds) and -O output (both branches); TLC decides every recorded encode/decode against Wire and the design-level Codec/CCopy machines are model-checked.", "6 C14", "TLA+ Wire/Codec/CCopy spec model-checked by TLC + trace validation over the complete leaf space"),
  "C16": ("model_checking", "Wire!JsonOf is model-checked (MC_Json: key order, JSON determines the value, ranges); Python to_json/to_dict and the generated C Json function are run on random schemas x values, the text is parsed with order preserved and TLC decides each tree against JsonOf.", "6 C16", "TLA+ JsonOf spec model-checked by TLC + trace validation of recorded JSON output (Python and C)"),
+ "C08": ("model_checking", "Compiler.tla is the front end as a state machine (one action per grammar action, guarded by exactly the checks of the constraint catalogue); valid random programs, each with one catalogue edit at a random position/nesting depth (27 rules, incl. inside imported files) and hand-aimed boundary programs on both sides of every numeric limit are rendered and given to the real parser and command line; TLC steps the machine over each program and decides acceptance, the cited file and line span, exit status and absence of output files.", "6 C08", "TLA+ Compiler state machine + TLC trace validation of the real parser/CLI on catalogue-violating programs"),
+ "C11": ("model_checking", "Compiler!Lookup (innermost scope of the current file in which the whole dotted path resolves, only members pushed so far) is run by TLC over random programs on the names {A,B,C} nested to depth 3 with an imported file and `as` names; every reference recorded by the real parser (file, line, token -> definition file, line) and every field width is decided by TLC against the machine.", "6 C11", "TLA+ Compiler state machine + TLC trace validation of recorded name resolutions"),
+ "C13": ("model_checking", "Compiler!EvalCalc (precedence climbing over the token list) is model-checked against arithmetic templates (MC_Expr) and run by TLC over random constant programs; the parsed value of every constant, the capacities/options using it and the value denoted by the literal emitted into Python (import), C (compiled probe) and Go (lexical rules) are decided by TLC.", "6 C13", "TLA+ expression evaluator model-checked + TLC trace validation of constant values in parser and generated code"),
 }
 checks = []
 for pid, (cat, text, ref, tech) in sorted(claimed.items()):
